@@ -4,7 +4,8 @@ import KrroodVerif.Model.Json
 
 Property theorems only. `resolve q env tag` (Model/Json.lean) transcribes `SubclassJSONSerializer.from_json` from
 `data.get(JSON_TYPE_NAME)` up to the dispatch, over an import environment given as data; `Quirks.all` is the code
-as it is today (five escaping exceptions), `Quirks.none` the repaired resolver (fixes/C19_tag_resolution.diff).
+as it was found (six escaping exceptions), `Quirks.current` the code as it is at this commit, `Quirks.none` the
+repaired resolver (fixes/C19_tag_resolution.diff, fixes/C19_abstract_base.diff).
 `spec` is the property. Every theorem quantifies over **every** environment and **every** JSON value.
 -/
 namespace KrroodVerif.Json
@@ -16,8 +17,9 @@ through `_from_json` iff it is a `SubclassJSONSerializer`. -/
 theorem C19_total (env : Env) (tag : Option Json) :
     (∀ x, resolve .none env tag ≠ .escape x) ∧
     (∀ k via, resolve .none env tag = .dispatch k via →
-      ∃ s m c ser reg, tag = some (.str s) ∧ rsplit s = some (m, c) ∧ env.importModule m = .ok ∧
-        env.getattr m c = .cls k ser reg ∧ (ser = true ∨ reg = true) ∧ (via = .fromJson ↔ ser = true)) := by
+      ∃ s m c ser reg impl, tag = some (.str s) ∧ rsplit s = some (m, c) ∧ env.importModule m = .ok ∧
+        env.getattr m c = .cls k ser reg impl ∧ (if ser then impl = true else reg = true) ∧
+        (via = .fromJson ↔ ser = true)) := by
   constructor
   · intro x
     simp only [resolve, Quirks.none, Bool.false_eq_true, ↓reduceIte]
@@ -30,7 +32,7 @@ theorem C19_total (env : Env) (tag : Option Json) :
     all_goals
       obtain ⟨hk, hv⟩ := h
       subst hk hv
-      refine ⟨_, _, _, _, _, rfl, ‹_›, ‹_›, ‹_›, ?_, ?_⟩ <;> simp_all
+      refine ⟨_, _, _, _, _, _, rfl, ‹_›, ‹_›, ‹_›, ?_, ?_⟩ <;> simp_all
 
 theorem accepts_any_ite (c : Prop) [Decidable c] (a b : DocErr) :
     Expect.anyDocumented.accepts (if c then .err a else .err b) = true := by split <;> rfl
@@ -65,7 +67,7 @@ theorem C19_spec (env : Env) (tag : Option Json) : (spec env tag).accepts (resol
             cases env.getattr m c with
             | missing => simp [Expect.accepts]
             | nonClass k => simp [Expect.accepts]
-            | cls k ser reg => cases ser <;> cases reg <;> simp [Expect.accepts]
+            | cls k ser reg impl => cases ser <;> cases reg <;> cases impl <;> simp [Expect.accepts]
           | _ => simp [Expect.accepts]
 
 /-- **C19_canonical.** The five canonical situations get their specific error under *every* quirk setting — in
@@ -78,7 +80,7 @@ theorem C19_canonical (q : Quirks) (env : Env) :
       resolve q env (some (.str s)) = .err .unknownModule) ∧
     (∀ s m c, rsplit s = some (m, c) → env.importModule m = .ok → env.getattr m c = .missing →
       resolve q env (some (.str s)) = .err .classNotFound) ∧
-    (∀ s m c k, rsplit s = some (m, c) → env.importModule m = .ok → env.getattr m c = .cls k false false →
+    (∀ s m c k impl, rsplit s = some (m, c) → env.importModule m = .ok → env.getattr m c = .cls k false false impl →
       resolve q env (some (.str s)) = .err .notDeserializable) := by
   have ne (s : String) (m c : String) (h : rsplit s = some (m, c)) : (Json.str s).truthy = true := by
     have : s ≠ "" := by
@@ -88,14 +90,14 @@ theorem C19_canonical (q : Quirks) (env : Env) :
   · intro s hs h; simp [resolve, Json.truthy, hs, h]
   · intro s m c h hi; simp [resolve, ne s m c h, h, hi]
   · intro s m c h hi ha; simp [resolve, ne s m c h, h, hi, ha]
-  · intro s m c k h hi ha; simp [resolve, ne s m c h, h, hi, ha]
+  · intro s m c k impl h hi ha; simp [resolve, ne s m c h, h, hi, ha]
 
 /-- **C19_partial.** The code as it is (any quirk setting `q`, in particular `Quirks.all`) behaves exactly like
 the repaired resolver on every input outside the decidable trigger of its switched-on quirks; hence (with
 `C19_total`, `C19_spec`) the property holds of today's code on all those inputs. -/
 theorem C19_partial (q : Quirks) (env : Env) (tag : Option Json) (h : trigger q env tag = false) :
     resolve q env tag = resolve .none env tag := by
-  obtain ⟨q1, q2, q3, q4, q5⟩ := q
+  obtain ⟨q1, q2, q3, q4, q5, q6⟩ := q
   cases tag with
   | none => rfl
   | some t =>
@@ -105,7 +107,7 @@ theorem C19_partial (q : Quirks) (env : Env) (tag : Option Json) (h : trigger q 
       · subst hs; simp [resolve, Json.truthy]
       · have ht : (Json.str s).truthy = true := by simp [Json.truthy, hs]
         simp only [trigger, trigNonString, trigImportValueErr, trigImportTypeErr, trigImportErr, trigNonClass,
-          importOf, hs, ht, isStr, ↓reduceIte] at h
+          trigAbstract, importOf, hs, ht, isStr, ↓reduceIte] at h
         simp only [resolve, Quirks.none, ht, Bool.false_eq_true, ↓reduceIte, Bool.not_true]
         cases hr : rsplit s with
         | none => rfl
@@ -117,11 +119,12 @@ theorem C19_partial (q : Quirks) (env : Env) (tag : Option Json) (h : trigger q 
             simp only [hi] at h ⊢
             cases ha : env.getattr m c with
             | nonClass k => simp_all
-            | _ => rfl
+            | cls k ser reg impl => cases ser <;> cases impl <;> simp_all
+            | missing => rfl
           | _ => simp_all
     | _ =>
       simp only [trigger, trigNonString, trigImportValueErr, trigImportTypeErr, trigImportErr, trigNonClass,
-          importOf, isStr] at h
+          trigAbstract, importOf, isStr] at h
       simp only [resolve, Quirks.none]
       split <;> simp_all
 
@@ -184,12 +187,20 @@ theorem C19_document (env : Env) (j : Json) (x : Exc) : fromJson .none env j ≠
 
 /-- the interpreter facts the witnesses need (as probed): `import_module("")` → ValueError,
 `import_module(".")` → TypeError, `json` imports and `json.dumps` is a function,
-`asyncio.windows_events` raises ImportError("win32 only") -/
+`asyncio.windows_events` raises ImportError("win32 only"), `SubclassJSONSerializer` is a serializer class that does
+not implement `_from_json` -/
+def cexBase : Cls :=
+  ⟨"krrood.adapters.json_serializer:SubclassJSONSerializer", "krrood.adapters.json_serializer", "SubclassJSONSerializer"⟩
+
 def cexEnv : Env where
   importModule := fun m =>
     if m = "" then .valueErr else if m = "." then .typeErr else if m = "json" then .ok
+    else if m = "krrood.adapters.json_serializer" then .ok
     else if m = "asyncio.windows_events" then .importErr else .notFound
-  getattr := fun m n => if m = "json" ∧ n = "dumps" then .nonClass .function else .missing
+  getattr := fun m n =>
+    if m = "json" ∧ n = "dumps" then .nonClass .function
+    else if m = "krrood.adapters.json_serializer" ∧ n = "SubclassJSONSerializer" then .cls cexBase true false false
+    else .missing
 
 /-- witness `{"__json_type__": 5}`: AttributeError escapes -/
 theorem C19_cex_nonstring :
@@ -221,6 +232,14 @@ theorem C19_cex_import_error :
     resolve .all cexEnv (some (.str "asyncio.windows_events.X")) = .escape .importError ∧
     (spec cexEnv (some (.str "asyncio.windows_events.X"))).accepts
       (resolve .all cexEnv (some (.str "asyncio.windows_events.X"))) = false := by decide
+
+/-- witness `{"__json_type__": "krrood.adapters.json_serializer.SubclassJSONSerializer"}` — the abstract base is a
+subclass of itself, is dispatched to, and the NotImplementedError of its `_from_json` escapes (F-C19-6) -/
+theorem C19_cex_abstract :
+    let tag := some (Json.str "krrood.adapters.json_serializer.SubclassJSONSerializer")
+    trigger .all cexEnv tag = true ∧ resolve .all cexEnv tag = .escape .notImplementedError ∧
+    (spec cexEnv tag).accepts (resolve .all cexEnv tag) = false ∧
+    resolve .none cexEnv tag = .err .notDeserializable := by decide
 
 /-! Non-vacuity of `C19_partial` (tests): inputs outside every trigger, with non-trivial outcomes, and the repaired
 resolver on the five witnesses. -/
